@@ -2520,6 +2520,10 @@ def generators_to_lists(tree):
                 (isinstance(up2, ast.Call) and norm(up2.func) in (
                     "list", "tuple", "sorted", "set", "any", "all", "sum")
                  and up2.args and up2.args[0] is up)
+                or (isinstance(up2, ast.Call) and norm(up2.func) in (
+                    "functools.reduce", "reduce", "dict", "max", "min",
+                    "collections.OrderedDict", "OrderedDict", "frozenset")
+                    and up in up2.args[:2])
                 or (isinstance(up2, ast.Call) and isinstance(
                     up2.func, ast.Attribute) and up2.func.attr in (
                         "extend", "join") and up2.args
@@ -5387,6 +5391,34 @@ def unroll_reduce(tree):
                 n.ctx, (ast.Store, ast.Del)):
             stores[n.id] = stores.get(n.id, 0) + 1
     done = False
+    # a local list display bound once and handed to reduce() by the
+    # statement that follows
+    for fn in [n for n in ast.walk(tree) if isinstance(n, ast.FunctionDef)]:
+        for par in [fn] + list(_walk_own(fn)):
+            for fld in ("body", "orelse", "finalbody"):
+                blk = getattr(par, fld, None)
+                if not isinstance(blk, list):
+                    continue
+                for i, st in enumerate(list(blk[:-1])):
+                    if not (isinstance(st, ast.Assign) and len(
+                            st.targets) == 1 and isinstance(
+                            st.targets[0], ast.Name) and isinstance(
+                            st.value, (ast.List, ast.Tuple))):
+                        continue
+                    L = st.targets[0].id
+                    if sum(1 for n in ast.walk(fn) if isinstance(
+                            n, ast.Name) and n.id == L) != 2:
+                        continue
+                    nx = blk[blk.index(st) + 1]
+                    for c in ast.walk(nx):
+                        if isinstance(c, ast.Call) and norm(c.func) in (
+                                "functools.reduce", "reduce") and len(
+                                c.args) in (2, 3) and isinstance(
+                                c.args[1], ast.Name) and c.args[1].id == L:
+                            c.args[1] = st.value
+                            blk.remove(st)
+                            done = True
+                            break
 
     def table(e):
         if isinstance(e, ast.Name) and count.get(e.id) == 1 and \
